@@ -378,6 +378,28 @@ def c16_formula_names_clashing_with_exprtk_constants():
     return a[0] == "config-error" and b[0] == "config-error", (a, b)
 
 
+@demo
+def c17_excel_eam_second_write_after_failure():
+    import io
+    from atsim.potentials import Potential, EAMPotential
+    from atsim.potentials.eam_tabulation import Excel_EAMTabulation
+
+    def dens(r):
+        if r > 2.0:
+            raise ValueError("domain")
+        return 1.0 / (1 + r)
+    t = Excel_EAMTabulation([Potential("A", "A", lambda r: 1.0 / (r + 1))], [EAMPotential("A", 1, 1.0, lambda rho: rho, dens)], 5.0, 11, 10.0, 11)
+    res = []
+    for i in (1, 2):
+        fp = io.BytesIO()
+        try:
+            t.write(fp)
+            res.append(("returned", len(fp.getvalue())))
+        except ValueError:
+            res.append(("raised", len(fp.getvalue())))
+    return all(n == 0 for _, n in res), res
+
+
 if __name__ == "__main__":
     want = sys.argv[1:]
     nbad = 0
